@@ -26,12 +26,6 @@ for _op, _cs in [('ensure_capacity', _R6), ('ensure_capacity_exact', _R6), ('shr
                  ('clone_from', [1, 2, 3, 4, 5, 6, 8]), ('clone_from_slice', _R6), ('into_boxed_slice', _R6),
                  ('deref_eq', [1, 4, 6]), ('drop', [1, 3, 6])]:
     _BUFFER.update(_h(_caps(_op, _cs), _B))
-_BUFFER['vk_int_buffer_finding_ensure_capacity_cap1'] = {
-    'kind': 'finding', 'bound': 'capacity 1',
-    'note': 'latent: ensure_capacity(2) / push_resizing on a capacity-1 buffer does not grow (guard `&& num_words > 2`); '
-            'capacity 1 only arises from allocate_exact(1), never followed by these calls in the crate'}
-
-
 
 def _scan(fname, prefix):
     """Harness names defined in a harness file (every identifier with the group's unique prefix), in file order."""
@@ -74,10 +68,14 @@ KANI = {
     },
     'int_repr': {
         'package': 'dashu-int', 'target': 'integer/src/repr.rs', 'file': 'int_repr.rs',
+        # leak freedom is checked for these harnesses (each frees everything it owns before returning)
+        'cbmc_args': ['--memory-leak-check'],
         'harnesses': _REPR,
     },
     'int_buffer': {
         'package': 'dashu-int', 'target': 'integer/src/buffer.rs', 'file': 'int_buffer.rs',
+        # leak freedom is checked for these harnesses (each frees everything it owns before returning)
+        'cbmc_args': ['--memory-leak-check'],
         'harnesses': _BUFFER,
     },
 }
